@@ -51,8 +51,8 @@ UNIT_TRUSTED["packet_validate"] = [
 ]
 
 UNIT_TRUSTED["packet_parse"] = [
-    "prelude p_packet_parse: io::Cursor modelled as (buffer, position) with assumed contracts for new/position/set_position/get_ref; byteorder reads as R11 helpers (`requires pos + k <= len` turns every `.unwrap()` of the real code into an obligation); R11b shims for Capability::decode / Attribute::decode (they take `&mut dyn io::Read`): assumed to leave the buffer alone, never move the cursor backwards or past the end, return the attribute with the code / flags given, and a byte-string body for MP_REACH / MP_UNREACH",
-    "trusted (external_body, contracts assumed): PeerCodec::decode_nlri_list (total), PeerCodec::reconcile_as4 (total, keeps stored attributes well-flagged), Nexthop::from_bytes, Notification::from_notification, Attribute::{binary,new_opaque}, HoldTime::new, Ipv4Addr::{from(u32),is_unspecified,is_broadcast,is_multicast} as functions of the 32 bits, <[T]>::to_vec, Option::{is_none_or,filter}, bool::then_some",
+    "prelude p_packet_parse: io::Cursor modelled as (buffer, position) with assumed contracts for new/position/set_position/get_ref; byteorder reads as R11 helpers (`requires pos + k <= len` turns every `.unwrap()` of the real code into an obligation); R11b shims for Capability::decode / Attribute::decode (they take `&mut dyn io::Read`): assumed to leave the buffer alone, never move the cursor backwards or past the end, return the attribute with the code / flags given, and a byte-string body for MP_REACH / MP_UNREACH; and (for the attribute-walk contract) Attribute::decode's outcome is ASSUMED to be a function attr_decodes(code, flags, the `len` value octets, two_byte_as) and an accepted value to be consumed whole (cursor advanced by exactly `len`: cross-checked per attribute type by the bounded Kani decode harnesses, clause C05.decode.accepted_value_is_consumed_whole)",
+    "trusted (external_body, contracts assumed): PeerCodec::decode_nlri_list (total; its outcome is a function nlri_list_ok of its four arguments — it is an associated function without state), PeerCodec::reconcile_as4 (total, keeps stored attributes well-flagged), Nexthop::from_bytes, Notification::from_notification, Attribute::{binary,new_opaque}, HoldTime::new, Ipv4Addr::{from(u32),is_unspecified,is_broadcast,is_multicast} as functions of the 32 bits, <[T]>::to_vec, Option::{is_none_or,filter}, bool::then_some",
     "precondition buf.len() <= 65535: established by PeerCodec::try_parse (bounded Kani harness bgp_try_parse_framing), the only caller",
     "NOT covered: the per-family NLRI decoders behind decode_nlri_list and the attribute / capability body decoders (leaf byte-level code)",
 ]
@@ -74,6 +74,10 @@ UNIT_TRUSTED["table_policy"] = [
     "Statement::apply: Arc::make_mut as a `&mut` into the vector the Arc owns afterwards (vx_arc_make_mut; copy-on-write invisible, Arc = value); Vec::retain / into_iter().filter().collect() keep exactly the elements satisfying the (verified) predicate, in order; Vec::contains / clone / extend_from_slice on u32, [u8; 8], (u32, u32, u32) structural (vx_contains / vx_vec_clone / vx_vec_extend); Option::copied, i64::saturating_add, i64::clamp as their std definitions; Attribute::new_with_value returns a value attribute with that code for codes 1, 4, 5 (canonical-flags table: Kani harness c05_canonical_flags_table); communities_to_attr / ext_ / large_ and Attribute::as_path_prepend / as_path_prepend_confed / empty_as_path uninterpreted with their type codes (the byte-level prepend functions are verified in unit packet_aspath); IpAddr and bgp::Nexthop mirrored transparently; rlimit(200) (about 20 s)",
     "PolicyTable: FnvHashMap::values() over the statements / policies outlined as vectors in an unspecified order (vx_stmt_values / vx_policy_values, assumed: exactly the stored values); String / str comparisons through references outlined (vx_string_eq, vx_string_eq_str, vx_str_eq: equality of the character sequences); Arc<str>::as_ref, Arc::clone = same value; add_defined_set and condition_kind_matches trusted with no contract; the tails of delete_statement / delete_policy (editing a statement / policy that is not in use) carry no functional contract, only panic-freedom and the in-use guard",
     "NOT under contract: the regular-expression members of an as-path set (known finding F-C14-4), prefix / neighbour sets with the ALL option (rejected by add_statement), the byte layout of community attributes, and the in-use guards of delete_defined_set, add_defined_set (merge), add_statement / add_policy (existing object) and the daemon-side per-peer checks",
+]
+
+UNIT_TRUSTED["table_rslocal"] = [
+    "Table::rs_local_paths wrapped in place; RibEntry's Ord enters as an uninterpreted total comparison rib_cmp (its agreement with the property's decision order is what unit table_cmp proves); `iter().filter(p).max()` / `.min()` outlined as one helper whose last arguments say which method the code names and, as a ghost value, the predicate the closure computes (checked at the call site) — ASSUMED std contracts: max returns an element no other yielded element exceeds, min one that exceeds no other; `Option::into_iter().map(f).collect()` is a verified helper; Source::is_rs_client / remote_addr / RibEntry::is_filtered uninterpreted; Table, Source, RpkiValidation opaque",
 ]
 
 UNIT_TRUSTED["packet_negotiate"] = [
@@ -136,8 +140,8 @@ UNIT_TRUSTED["packet_nlri"] = [
 ]
 
 # minimum number of functions that must produce obligations / of must-fail twins that must run
-FLOORS = {"daemon_fsm": 30, "daemon_gr": 4, "daemon_peer_tx": 9, "table_cmp": 20, "packet_validate": 1, "packet_parse": 1, "table_rpki": 5, "table_policy": 12, "daemon_export": 11, "packet_bmp": 6, "packet_mrt": 8, "packet_aspath": 11, "packet_encode": 4, "packet_nlri": 22, "daemon_restart": 7, "packet_negotiate": 1}
-TWIN_FLOORS = {"daemon_fsm": 8, "daemon_gr": 3, "daemon_peer_tx": 2, "table_cmp": 4, "packet_validate": 1, "packet_parse": 1, "table_rpki": 1, "table_policy": 1, "daemon_export": 1, "packet_bmp": 1, "packet_mrt": 1, "packet_aspath": 1, "packet_encode": 1, "packet_nlri": 1, "daemon_restart": 1, "packet_negotiate": 0}
+FLOORS = {"daemon_fsm": 30, "daemon_gr": 4, "daemon_peer_tx": 9, "table_cmp": 20, "packet_validate": 1, "packet_parse": 1, "table_rpki": 5, "table_policy": 12, "daemon_export": 11, "packet_bmp": 6, "packet_mrt": 8, "packet_aspath": 11, "packet_encode": 4, "packet_nlri": 22, "daemon_restart": 7, "packet_negotiate": 1, "table_rslocal": 1}
+TWIN_FLOORS = {"daemon_fsm": 8, "daemon_gr": 3, "daemon_peer_tx": 2, "table_cmp": 4, "packet_validate": 1, "packet_parse": 1, "table_rpki": 1, "table_policy": 1, "daemon_export": 1, "packet_bmp": 1, "packet_mrt": 1, "packet_aspath": 1, "packet_encode": 1, "packet_nlri": 1, "daemon_restart": 1, "packet_negotiate": 0, "table_rslocal": 0}
 
 PLAN = {
     "C01": {"verus": ["daemon_peer_tx", "daemon_export"], "level": "proof",
@@ -158,7 +162,7 @@ PLAN = {
     "C16": {"verus": ["daemon_fsm", "packet_negotiate"], "kani": ["c16_ipnet_contains_v4", "c16_ipnet_contains_v6"], "level": "proof"},
     "C04": {"verus": ["packet_encode", "packet_aspath"], "level": "proof",
             "fn_filter": {"packet_aspath": ["encode", "encode_wire", "value", "binary", "as_path_has_wide_as", "lemma_seg_any_wide_mono"]}},
-    "C02": {"verus": ["table_cmp", "packet_aspath"], "level": "proof",
+    "C02": {"verus": ["table_cmp", "table_rslocal", "packet_aspath"], "level": "proof",
             "fn_filter": {"packet_aspath": ["as_path_length"]}},
     "C19": {"verus": ["packet_bmp", "packet_mrt"], "level": "proof"},
     "C03": {"verus": ["packet_parse", "packet_nlri"], "level": "proof",
